@@ -96,6 +96,30 @@ def rows_check(g, phi, bad, maxerr, cov, label):
                 bad.append(('rows-vs-ghosts/axis%d' % k, '%s: axis %d boundary rows of boundaryConditionsTerm do not vanish on the reported values, err %.3g' % (label, k, e)))
 
 
+def interior_consistency(g, phi, spy, bad, maxerr, cov, label):
+    """the solved interior and the REPORTED boundary values are mutually consistent: the variable's full value array
+    satisfies the interior equations of the system that was solved"""
+    M, b, x = spy.last
+    rows = interior_index(g.dims)
+    xin = np.asarray(phi._value, dtype=float).ravel()
+    r = sp.csr_array(M) @ xin - b
+    from ..common import absmv
+    sc = absmv(M, xin) + np.abs(b)
+    sc = sc + (64.0 * len(sc) * np.finfo(float).eps / TOL) * float(np.max(sc))
+    e_rows = np.abs(r[rows]) / np.where(sc[rows] > 0, sc[rows], 1.0)
+    e = float(np.max(e_rows)) if e_rows.size else 0.0
+    maxerr['interior-vs-reported'] = max(maxerr.get('interior-vs-reported', 0.0), e)
+    cov['interior_consistency'] = cov.get('interior_consistency', 0) + 1
+    if not (e <= TOL):
+        cells = [np.unravel_index(int(i), g.dims) for i in np.flatnonzero(e_rows > TOL)]
+        unequal = [k for k in range(g.nd) if axis_periodic(phi.BCs, k) and abs(g.w[k][0] - g.w[k][-1]) > 1e-12 * max(g.w[k][0], g.w[k][-1])]
+        if unequal and all(any(c[k] in (0, g.N[k] - 1) for k in unequal) for c in cells):
+            bad.append((KEY_PER, '%s: interior equations next to a periodic boundary with unequal end cells are not satisfied by the reported (wrapped) boundary values, err %.3g' % (label, e)))
+        else:
+            bad.append(('interior-vs-reported', '%s: the reported values (solved interior + re-imposed boundary values) violate the interior equations that were solved: cells %r, normalised %.3g' % (
+                label, [tuple(map(int, c)) for c in cells[:4]], e)))
+
+
 def plotprofile_check(g, phi, bad, cov):
     out = phi.plotprofile()
     prof = np.asarray(out[-1], dtype=float)
@@ -168,7 +192,32 @@ def run_case(case):
         if ok:
             ghosts(phi, 'solvePDE')
             rows_check(g, phi, bad, maxerr, cov, 'solvePDE')
+            interior_consistency(g, phi, spy, bad, maxerr, cov, 'solvePDE')
             plotprofile_check(g, phi, bad, cov)
+            # (3b) edit ONE side's coefficients through the public setters (values untouched), solve again
+            ke = int(rng.integers(0, g.nd))
+            if ke not in spec['periodic']:
+                side_e = SIDES[ke][int(rng.integers(0, 2))]
+                fe = getattr(phi.BCs, side_e)
+                how = str(rng.choice(['c', 'kind', 'elem']))
+                if how == 'c':
+                    fe.c = np.asarray(fe.c) + 0.75
+                elif how == 'kind':
+                    if np.all(np.asarray(fe.a) == 0):
+                        fe.defaultNoFlux()
+                    else:
+                        fe.fixedValue(float(rng.normal()))
+                else:
+                    cc = fe.c
+                    cc[(0,) * cc.ndim] = float(cc[(0,) * cc.ndim]) + 1.25
+                spy_e = SpySolver()
+                terms_e = [pf.transientTerm(phi, dt, 1.0), -pf.diffusionTerm(D)]
+                pf.solvePDE(phi, terms_e, externalsolver=spy_e)
+                if np.all(np.isfinite(phi._value[tuple(slice(1, -1) for _ in range(g.nd))])):
+                    ghosts(phi, 'solvePDE-after-side-edit')
+                    rows_check(g, phi, bad, maxerr, cov, 'solvePDE-after-side-edit')
+                    interior_consistency(g, phi, spy_e, bad, maxerr, cov, 'solvePDE after editing only side %s (%s)' % (side_e, how))
+                    cov['side_edit:' + side_e] = 1
             # (4) solveExplicitPDE
             rhs = pf.divergenceTerm(D * pf.gradientTerm(phi))
             new = pf.solveExplicitPDE(phi, 1e-3 * dt, rhs)
@@ -241,7 +290,8 @@ def floors(agg, tier):
         if agg['cov'].get('cases:' + cls, 0) < 6:
             out.append('cases:%s < 6' % cls)
     for k, need in (('op:constructor', 100), ('op:apply_BCs', 100), ('op:solvePDE', 80), ('op:solveExplicitPDE', 80),
-                    ('robin_faces', 1000), ('wrap_faces', 200), ('rows-robin', 500), ('scale_invariance', 80), ('plotprofile_faces', 500)):
+                    ('robin_faces', 1000), ('wrap_faces', 200), ('rows-robin', 500), ('scale_invariance', 80), ('plotprofile_faces', 500), ('interior_consistency', 150),
+                    ('side_edit:left', 5), ('side_edit:right', 5), ('side_edit:bottom', 5), ('side_edit:top', 5), ('side_edit:back', 3), ('side_edit:front', 3)):
         if agg['cov'].get(k, 0) < need:
             out.append('%s < %d' % (k, need))
     return out
